@@ -61,6 +61,8 @@ structure Cfg where
   script : Nat → List Act        -- client scripts
   raOwns : Bool := true          -- run(async) submits a closure that owns the coroutine and the promise (repaired code)
   dtorOutside : Bool := true     -- worker() destroys the closure it ran before re-locking `_mx` (repaired code)
+  cvYield : Bool := false        -- the harness puts a scheduling point at the entry of `_cond.wait` (predicate evaluated,
+                                 -- mutex still held, waiter not yet registered); in the model it is a step of its own anyway
 
 inductive Fut where
   | none | pending | value | broken
@@ -112,12 +114,16 @@ inductive Ret where
 
 inductive Pc where
   | idle                          -- run the next action of the current activity
+  | enqCS (j : Nat)               -- the closure of `j` exists, about to lock `_mx` in `enqueue`
   | afterEnq (j : Nat) (acc : Bool)   -- `enqueue` returned (its critical section is over)
+  | stopCS (isD : Bool)           -- `stop()` entered, about to lock `_mx`
   | waitFlag (f : Nat)            -- blocked in a user-level wait for event `f`
   | stopJoin                      -- `stop()`: walk the local copy of the thread list
   | joinBlocked                   -- `stop()`: blocked in `join()`
   | stopDrop                      -- `stop()`: destroy the swapped-out queue, return
+  | wRelock                       -- `worker()`: about to lock `_mx` (thread start, after a job, waking up in `_cond.wait`)
   | wLoop                         -- `worker()`: holding the lock, evaluate the wait predicate
+  | wCvEnter                      -- predicate was false, lock still held, entering `_cond.wait`: not yet registered
   | wCvCheck                      -- inside `_cond.wait`: registered and unlocked
   | wCvBlocked                    -- inside `_cond.wait`: sleeping
   | wRun (j : Nat)                -- dequeued `j`, lock released, about to invoke it
@@ -133,7 +139,7 @@ inductive Outcome where
   deriving DecidableEq, Repr, Inhabited
 
 inductive Ev where
-  | unlock (t : Nat) | cvBlock (t : Nat) | joinBlock (t u : Nat) | join (t u : Nat) | fin (t : Nat) | lockBlock (t : Nat)
+  | unlock (t : Nat) | cvEnter (t : Nat) | cvBlock (t : Nat) | joinBlock (t u : Nat) | join (t u : Nat) | fin (t : Nat) | lockBlock (t : Nat)
   | submit (j : Nat) (k : Kind) (t : Nat) (ex : Bool)
   | run (j t : Nat) (cur : Bool)
   | cancel (j t : Nat)
@@ -151,6 +157,8 @@ structure State where
   woken : Nat → Bool := fun _ => false
   cur : Nat → Bool                   -- thread-local `_current == this`
   destroyed : Bool := false
+  mx : Option Nat := none            -- owner of `_mx` between two steps (only a worker inside its loop head keeps it)
+  lockWait : Nat → Bool := fun _ => false   -- the thread found `_mx` taken and is blocked in `lock()`
   flag : Nat → Bool := fun _ => false   -- user-level events (not part of the pool)
   -- threads
   pc : Nat → Pc
@@ -193,7 +201,7 @@ def init (c : Cfg) : State :=
   { threads := List.range c.nw,
     awake := List.range c.nw,
     cur := fun t => decide (t < c.nw),
-    pc := fun t => if t < c.nw then Pc.wLoop else if t < c.nt then Pc.idle else Pc.done,
+    pc := fun t => if t < c.nw then Pc.wRelock else if t < c.nt then Pc.idle else Pc.done,
     todo := fun t => if c.nw ≤ t ∧ t < c.nt then c.script t else [],
     ret := fun t => if t < c.nw then Ret.body else Ret.script }
 
@@ -251,29 +259,37 @@ def arm (s : State) (t j : Nat) : State × List Ev :=
   | _ => ({ s with armed := upd s.armed j true }, [])
 
 /-- the job table entry of a new submission and the submitter's program counter -/
-def newJob (s : State) (t : Nat) (kd : Kind) (bd : List Prim) (kl : Bool) (rest : List Act) (acc : Bool) : State :=
+def newJob (s : State) (t : Nat) (kd : Kind) (bd : List Prim) (kl : Bool) (rest : List Act) : State :=
   { s with nextJob := s.nextJob + 1, kind := upd s.kind s.nextJob kd, body := upd s.body s.nextJob bd,
            killer := upd s.killer s.nextJob kl, owner := upd s.owner s.nextJob t,
            fut := upd s.fut s.nextJob (if hasFut kd then Fut.pending else Fut.none),
-           todo := upd s.todo t rest, pc := upd s.pc t (Pc.afterEnq s.nextJob acc) }
+           todo := upd s.todo t rest, pc := upd s.pc t (Pc.enqCS s.nextJob),
+           loc := upd s.loc s.nextJob (Loc.rejected t) }
 
-/-- a submission: everything up to and including the critical section of `enqueue` -/
-def stepSubmit (s : State) (t k : Nat) (kd : Kind) (bd : List Prim) (kl : Bool) (rest : List Act) :
+/-- a submission, first part: the closure is built (a coroutine runs up to its `co_await`, a future is created ...) -/
+def stepSubmit (s : State) (t : Nat) (kd : Kind) (bd : List Prim) (kl : Bool) (rest : List Act) :
     State × List Ev × Outcome :=
-  if s.exit then
-    ({ newJob s t kd bd kl rest false with loc := upd s.loc s.nextJob (Loc.rejected t) },
-     [Ev.submit s.nextJob kd t true, Ev.unlock t], Outcome.op)
+  (newJob s t kd bd kl rest, [Ev.submit s.nextJob kd t s.exit], Outcome.cont)
+
+/-- a submission, second part: the critical section of `enqueue` -/
+def stepEnqCS (s : State) (t k j : Nat) : State × List Ev × Outcome :=
+  if s.exit then (setPc s t (Pc.afterEnq j false), [Ev.unlock t], Outcome.op)
   else
-    (notifyOne { newJob s t kd bd kl rest true with loc := upd s.loc s.nextJob Loc.queued, q := s.q ++ [s.nextJob] } k,
-     [Ev.submit s.nextJob kd t false, Ev.unlock t], Outcome.op)
+    (notifyOne { s with pc := upd s.pc t (Pc.afterEnq j true), loc := upd s.loc j Loc.queued, q := s.q ++ [j] } k,
+     [Ev.unlock t], Outcome.op)
+
+/-- `stop()` / `~thread_pool()` entered -/
+def stepStopBegin (s : State) (t : Nat) (rest : List Act) (isD : Bool) : State × List Ev × Outcome :=
+  ({ s with todo := upd s.todo t rest, pc := upd s.pc t (Pc.stopCS isD) },
+   [if isD then Ev.destroyBegin t else Ev.stopBegin t], Outcome.cont)
 
 /-- the critical section of `stop()` -/
-def stepStopCS (s : State) (t : Nat) (rest : List Act) (isD : Bool) : State × List Ev × Outcome :=
+def stepStopCS (s : State) (t : Nat) (isD : Bool) : State × List Ev × Outcome :=
   ({ s with exit := true, woken := fun w => s.woken w || s.waitq.contains w, waitq := [],
             tmp := upd s.tmp t s.threads, threads := [], dq := upd s.dq t s.q, q := [],
             loc := fun j => if s.q.contains j then Loc.swapped t else s.loc j,
-            todo := upd s.todo t rest, dtor := upd s.dtor t isD, pc := upd s.pc t Pc.stopJoin },
-   [if isD then Ev.destroyBegin t else Ev.stopBegin t, Ev.unlock t], Outcome.op)
+            dtor := upd s.dtor t isD, pc := upd s.pc t Pc.stopJoin },
+   [Ev.unlock t], Outcome.op)
 
 def stepFin (s : State) (t : Nat) : State × List Ev × Outcome :=
   (setPc s t Pc.done, [Ev.fin t], Outcome.finished)
@@ -290,7 +306,7 @@ def stepBodyEnd (s : State) (t : Nat) : State × List Ev × Outcome :=
       else ({ s with fut := upd s.fut j Fut.value, pc := upd s.pc t Pc.wFlush }, [], Outcome.cont)
     else (setPc s t Pc.wFlush, [], Outcome.cont)
 
-def stepIdle (s : State) (t k : Nat) : State × List Ev × Outcome :=
+def stepIdle (s : State) (t : Nat) : State × List Ev × Outcome :=
   match s.todo t with
   | [] =>
     match s.ret t with
@@ -298,11 +314,11 @@ def stepIdle (s : State) (t k : Nat) : State × List Ev × Outcome :=
     | Ret.body => stepBodyEnd s t
     | Ret.dtorA => (setPc s t Pc.wAfterJob, [], Outcome.cont)
     | Ret.dtorB => stepFin s t
-  | Act.submit kd bd kl :: rest => stepSubmit s t k kd bd kl rest
-  | Act.stop :: rest => stepStopCS s t rest false
+  | Act.submit kd bd kl :: rest => stepSubmit s t kd bd kl rest
+  | Act.stop :: rest => stepStopBegin s t rest false
   | Act.destroy :: rest =>
       if s.destroyed then ({ s with todo := upd s.todo t rest }, [Ev.destroySkip t], Outcome.cont)
-      else stepStopCS s t rest true
+      else stepStopBegin s t rest true
   | Act.wait f :: rest =>
       if s.flag f then ({ s with todo := upd s.todo t rest }, [], Outcome.cont)
       else ({ s with todo := upd s.todo t rest, pc := upd s.pc t (Pc.waitFlag f) }, [Ev.flagBlock t f], Outcome.blocked)
@@ -349,23 +365,36 @@ def stepStopDrop (c : Cfg) (s : State) (t k : Nat) : State × List Ev × Outcome
       ({ s with destroyed := true, dtor := upd s.dtor t false, pc := upd s.pc t Pc.idle }, [Ev.destroyed t], Outcome.cont)
     else (setPc s t Pc.idle, [Ev.stopEnd t], Outcome.cont)
 
-def stepWLoop (s : State) (t : Nat) : State × List Ev × Outcome :=
-  if s.exit then ({ s with pc := upd s.pc t Pc.wExit, awake := s.awake.erase t, touchedAfterDetach := s.touchedAfterDetach || s.detached t },
+def stepWLoop (c : Cfg) (s : State) (t : Nat) : State × List Ev × Outcome :=
+  if s.exit then ({ s with pc := upd s.pc t Pc.wExit, mx := none, awake := s.awake.erase t,
+                           touchedAfterDetach := s.touchedAfterDetach || s.detached t },
                   [Ev.unlock t], Outcome.op)
   else
     match s.q with
     | j :: rest =>
-        ({ s with q := rest, pc := upd s.pc t (Pc.wRun j), loc := upd s.loc j (Loc.held t), awake := s.awake.erase t,
+        ({ s with q := rest, pc := upd s.pc t (Pc.wRun j), loc := upd s.loc j (Loc.held t), mx := none,
+                  awake := s.awake.erase t,
                   touchedAfterDetach := s.touchedAfterDetach || s.detached t }, [Ev.unlock t], Outcome.op)
-    | [] => ({ s with waitq := s.waitq ++ [t], pc := upd s.pc t Pc.wCvCheck, awake := s.awake.erase t,
-                      touchedAfterDetach := s.touchedAfterDetach || s.detached t }, [Ev.unlock t], Outcome.op)
+    | [] =>
+        -- the predicate is false: `_cond.wait(lk)` is entered with the mutex held
+        ({ s with pc := upd s.pc t Pc.wCvEnter, awake := s.awake.erase t,
+                  touchedAfterDetach := s.touchedAfterDetach || s.detached t },
+         if c.cvYield then [Ev.cvEnter t] else [], if c.cvYield then Outcome.op else Outcome.cont)
+
+/-- `_cond.wait(lk)`: register as a waiter and release the mutex, atomically -/
+def stepWCvEnter (s : State) (t : Nat) : State × List Ev × Outcome :=
+  ({ s with waitq := s.waitq ++ [t], pc := upd s.pc t Pc.wCvCheck, mx := none }, [Ev.unlock t], Outcome.op)
+
+/-- `lock()` succeeded -/
+def stepWRelock (s : State) (t : Nat) : State × List Ev × Outcome :=
+  ({ s with pc := upd s.pc t Pc.wLoop, mx := some t }, [], Outcome.cont)
 
 def stepWCvCheck (s : State) (t : Nat) : State × List Ev × Outcome :=
-  if s.woken t then ({ s with woken := upd s.woken t false, pc := upd s.pc t Pc.wLoop }, [], Outcome.cont)
+  if s.woken t then ({ s with woken := upd s.woken t false, pc := upd s.pc t Pc.wRelock }, [], Outcome.cont)
   else (setPc s t Pc.wCvBlocked, [Ev.cvBlock t], Outcome.blocked)
 
 def stepWCvBlocked (s : State) (t : Nat) : State × List Ev × Outcome :=
-  ({ s with woken := upd s.woken t false, pc := upd s.pc t Pc.wLoop }, [], Outcome.cont)
+  ({ s with woken := upd s.woken t false, pc := upd s.pc t Pc.wRelock }, [], Outcome.cont)
 
 def stepWRun (s : State) (t j : Nat) : State × List Ev × Outcome :=
   ({ s with ran := upd s.ran j (s.ran j + 1), ranOn := upd s.ranOn j (some t), loc := upd s.loc j Loc.done,
@@ -397,24 +426,31 @@ def stepWAfterJob (c : Cfg) (s : State) (t : Nat) : State × List Ev × Outcome 
     if !c.dtorOutside && jobKiller s t && !s.destroyed then
       -- pinned code: the closure is destroyed with `_mx` held; its destructor deletes the pool: `stop()` locks `_mx` again
       (setPc s t Pc.stuck, [Ev.destroyBegin t, Ev.lockBlock t], Outcome.blocked)
-    else ({ s with job := upd s.job t none, pc := upd s.pc t Pc.wLoop, awake := t :: s.awake }, [], Outcome.cont)
+    else ({ s with job := upd s.job t none, pc := upd s.pc t Pc.wRelock, awake := t :: s.awake }, [], Outcome.cont)
   else
     -- `return`: the pool may be gone, nothing of it is touched
     if !c.dtorOutside && jobKiller s t then
       ({ s with todo := upd s.todo t [Act.destroy], pc := upd s.pc t Pc.idle }, [], Outcome.cont)
     else stepFin s t
 
-/-- one small step of thread `t`; `k` resolves the nondeterminism (which waiter `notify_one` wakes, which closure of a
-swapped-out queue is destroyed next) -/
-def step (c : Cfg) (s : State) (t k : Nat) : State × List Ev × Outcome :=
+/-- the next thing the thread does is `_mx.lock()` -/
+def Pc.wantsLock : Pc → Bool
+  | Pc.enqCS _ | Pc.stopCS _ | Pc.wRelock => true
+  | _ => false
+
+def stepPc (c : Cfg) (s : State) (t k : Nat) : State × List Ev × Outcome :=
   match s.pc t with
-  | Pc.idle => stepIdle s t k
+  | Pc.idle => stepIdle s t
+  | Pc.enqCS j => stepEnqCS s t k j
   | Pc.afterEnq j acc => stepAfterEnq c s t j acc
+  | Pc.stopCS isD => stepStopCS s t isD
   | Pc.waitFlag _ => (setPc s t Pc.idle, [], Outcome.cont)
   | Pc.stopJoin => stepStopJoin s t
   | Pc.joinBlocked => stepJoinBlocked s t
   | Pc.stopDrop => stepStopDrop c s t k
-  | Pc.wLoop => stepWLoop s t
+  | Pc.wRelock => stepWRelock s t
+  | Pc.wLoop => stepWLoop c s t
+  | Pc.wCvEnter => stepWCvEnter s t
   | Pc.wCvCheck => stepWCvCheck s t
   | Pc.wCvBlocked => stepWCvBlocked s t
   | Pc.wRun j => stepWRun s t j
@@ -424,8 +460,17 @@ def step (c : Cfg) (s : State) (t k : Nat) : State × List Ev × Outcome :=
   | Pc.stuck => (s, [], Outcome.blocked)
   | Pc.done => (s, [], Outcome.finished)
 
+/-- one small step of thread `t`; `k` resolves the nondeterminism (which waiter `notify_one` wakes, which closure of a
+swapped-out queue is destroyed next).  A thread that wants `_mx` while a worker holds it (inside `_cond.wait`'s entry)
+blocks in `lock()`. -/
+def step (c : Cfg) (s : State) (t k : Nat) : State × List Ev × Outcome :=
+  if (s.pc t).wantsLock && s.mx.isSome then
+    ({ s with lockWait := upd s.lockWait t true }, [Ev.lockBlock t], Outcome.blocked)
+  else stepPc c { s with lockWait := upd s.lockWait t false } t k
+
 /-- can thread `t` make a step? -/
 def enabled (s : State) (t : Nat) : Bool :=
+  if (s.pc t).wantsLock && s.lockWait t then s.mx.isNone else
   match s.pc t with
   | Pc.done => false
   | Pc.stuck => false
